@@ -111,6 +111,11 @@ class System:
         if isinstance(v, dict):
             if 'raw' in v:
                 return np.asarray(v['raw'], dtype=np.float64) if isinstance(v['raw'], list) else float(v['raw'])
+            if v.get('nudge'):
+                base = dict(v)
+                nudge = base.pop('nudge')
+                out = self.value(base, n)
+                return out * (1.0 + nudge)
             if v.get('arr') and n:
                 return np.asarray([v['v'] * (1.0 + 0.05 * k) for k in range(n)], dtype=np.float64) \
                     if not v.get('zero_at') else \
